@@ -88,6 +88,7 @@ type Step struct {
 	Ineligible string `json:"ineligible,omitempty"` // generator label: why this announcement must never be installed
 	Malformed  string `json:"malformed,omitempty"`  // generator label: why this message is malformed
 	Mutation   *Mutation `json:"mutation,omitempty"`
+	Open       *OpenSpec `json:"open,omitempty"` // OPEN the scripted peer sends from now on (peer_auto / send_open)
 }
 
 // Mutation corrupts the encoded message of a step before it is delivered.
